@@ -11,7 +11,7 @@ use crate::rec::{mix64, mix_pair, route_pred, Agg, LoopState, Rec};
 use crate::spec::*;
 
 /// What one host observed at one sink after `execute_blocking`.
-#[derive(Clone, Debug, PartialEq, Eq, serde::Serialize)]
+#[derive(Clone, Debug, PartialEq, Eq, serde::Serialize, serde::Deserialize)]
 pub enum SinkOut {
     /// `StreamOutput::get()` returned `None`
     Nothing,
